@@ -526,10 +526,24 @@ func runMerge(sc *streamScenario, vs []variantSpec, rec *recorder) {
 			v.PID = -1
 		case "insert":
 			f := pktSpec{PID: v.PID, K: v.K, CC: rg.intn(16)}
+			if v.K == "headless" {
+				f.K = "null" // (placeholder; the packets are built below)
+			}
 			fb := packetBytes(&f, nil, rg)
 			many := fb
 			for k := 1; k < v.N; k++ {
 				many = append(many, fb...)
+			}
+			if v.K == "headless" {
+				// very many packets of a foreign PID that never starts a unit (continuity counters in sequence, all payloads different): they
+				// pile up in that PID's accumulator and are nobody else's business
+				many = many[:0]
+				for k := 0; k < v.N; k++ {
+					b := make([]byte, 188)
+					b[0], b[1], b[2], b[3] = 0x47, 0x1a, 0xbd, 0x10|byte(k%16)
+					b[4], b[5], b[6], b[7] = 0xaa, byte(k>>16), byte(k>>8), byte(k)
+					many = append(many, b...)
+				}
 			}
 			for i := range bs.pkts {
 				if i == v.At {
